@@ -23,7 +23,29 @@ def run_prefix_chunk(job, timeout=1800):
 CHUNK = 2500
 
 
+def hung(r):
+    return r.get("class") == "HANG" or any(f.get("name") == "*" for f in (r.get("fetch") or []))
+
+
+def retry_hangs(job, out):
+    """A watchdog verdict under load is not a verdict: every prefix reported as hanging is evaluated again, alone, one at a time,
+    with a watchdog of 60 s; only what hangs then is reported."""
+    ns = [r["n"] for r in out[1:] if hung(r)]
+    if not ns:
+        return out
+    again, rc, err = run_prefix_chunk({"history": job["history"], "ns": ns, "tmo_ms": 60000, "par": 1}, timeout=3600)
+    byn = {r["n"]: r for r in again[1:]}
+    return [out[0]] + [byn.get(r["n"], r) if hung(r) else r for r in out[1:]]
+
+
 def run_prefix_job(job, timeout=1800):
+    out, rc, err = run_prefix_job_(job, timeout)
+    if out:
+        out = retry_hangs(job, out)
+    return out, rc, err
+
+
+def run_prefix_job_(job, timeout=1800):
     """One sweep; dense sweeps (stride < 8) are cut into chunks of CHUNK prefix lengths per process (every evaluated prefix keeps an
     index database open in its process: STFS has no Close)."""
     if job.get("ns") or job.get("stride", 1) >= 8:
